@@ -629,52 +629,7 @@ func checkC05(c *Check) {
 		c05SharedTLS(c, r)
 	}
 
-	// ---- R8 quarantine
-	c.Rule("R8", "a quarantined message reaches no network-sending call in AddRcpt / BodyNonAtomic", 2)
-	for _, m := range []string{"AddRcpt", "BodyNonAtomic"} {
-		r := c.need("R8", remoteRel, "remoteDelivery", m)
-		if r == nil {
-			continue
-		}
-		isSend := calling("~/"+remoteRel+".remoteDelivery.connectionForDomain", "~/internal/smtpconn.C.Rcpt", "~/internal/smtpconn.C.Data", "~/internal/smtpconn.C.Mail")
-		sendsVia := func(call *ast.CallExpr) bool {
-			if isSend(r.Info, call) {
-				return true
-			}
-			if fn := callee(r.Info, call); fn != nil && fn.Pkg() == r.FI.Obj.Pkg() && fn != r.FI.Obj {
-				return c.P.reachesCall(c.P.DeclOf(fn), isSend, 2)
-			}
-			return false
-		}
-		sending := func(pt Pt) bool {
-			for _, call := range callsAt(pt.Node()) {
-				if sendsVia(call) {
-					return true
-				}
-			}
-			// goroutines that send (closure body or a method started with go)
-			if g, ok := pt.Node().(*ast.GoStmt); ok {
-				found := sendsVia(g.Call)
-				ast.Inspect(g, func(x ast.Node) bool {
-					if call, ok := x.(*ast.CallExpr); ok && sendsVia(call) {
-						found = true
-					}
-					return true
-				})
-				return found
-			}
-			return false
-		}
-		avoid := r.F.AvoidImplying(func(atom ast.Expr) (bool, bool) {
-			if s, ok := ast.Unparen(atom).(*ast.SelectorExpr); ok && s.Sel.Name == "Quarantine" {
-				return false, true // remove "not quarantined" edges
-			}
-			return false, false
-		})
-		path, f := r.F.Reach(Query{From: r.Entry(), Inclusive: true, Target: sending, AvoidEdge: avoid})
-		any := len(r.F.Find(func(n ast.Node) bool { return sending(ptOfNode(r.F, n)) })) > 0
-		c.Hold("R8", "remoteDelivery."+m, r.FI.Decl.Pos(), !f && any, "a quarantined message can reach a sending call: "+r.F.Describe(path))
-	}
+	c05Quarantine(c)
 	_ = info
 	// ---- R7: a TLSA lookup failure defers the delivery instead of silently switching DANE off – C13's rules on the
 	// discovery and on CheckConn, re-evaluated here because they are a clause of this property
@@ -997,4 +952,54 @@ func phiEdgeFieldNil(phi *ssa.Phi, i int, fv *types.Var) bool {
 		nilSucc = 1
 	}
 	return pred.Succs[nilSucc] == phi.Block()
+}
+
+// c05Quarantine: R8 (also evaluated by C06)
+func c05Quarantine(c *Check) {
+	// ---- R8 quarantine
+	c.Rule("R8", "a quarantined message reaches no network-sending call in AddRcpt / BodyNonAtomic", 2)
+	for _, m := range []string{"AddRcpt", "BodyNonAtomic"} {
+		r := c.need("R8", remoteRel, "remoteDelivery", m)
+		if r == nil {
+			continue
+		}
+		isSend := calling("~/"+remoteRel+".remoteDelivery.connectionForDomain", "~/internal/smtpconn.C.Rcpt", "~/internal/smtpconn.C.Data", "~/internal/smtpconn.C.Mail")
+		sendsVia := func(call *ast.CallExpr) bool {
+			if isSend(r.Info, call) {
+				return true
+			}
+			if fn := callee(r.Info, call); fn != nil && fn.Pkg() == r.FI.Obj.Pkg() && fn != r.FI.Obj {
+				return c.P.reachesCall(c.P.DeclOf(fn), isSend, 2)
+			}
+			return false
+		}
+		sending := func(pt Pt) bool {
+			for _, call := range callsAt(pt.Node()) {
+				if sendsVia(call) {
+					return true
+				}
+			}
+			// goroutines that send (closure body or a method started with go)
+			if g, ok := pt.Node().(*ast.GoStmt); ok {
+				found := sendsVia(g.Call)
+				ast.Inspect(g, func(x ast.Node) bool {
+					if call, ok := x.(*ast.CallExpr); ok && sendsVia(call) {
+						found = true
+					}
+					return true
+				})
+				return found
+			}
+			return false
+		}
+		avoid := r.F.AvoidImplying(func(atom ast.Expr) (bool, bool) {
+			if s, ok := ast.Unparen(atom).(*ast.SelectorExpr); ok && s.Sel.Name == "Quarantine" {
+				return false, true // remove "not quarantined" edges
+			}
+			return false, false
+		})
+		path, f := r.F.Reach(Query{From: r.Entry(), Inclusive: true, Target: sending, AvoidEdge: avoid})
+		any := len(r.F.Find(func(n ast.Node) bool { return sending(ptOfNode(r.F, n)) })) > 0
+		c.Hold("R8", "remoteDelivery."+m, r.FI.Decl.Pos(), !f && any, "a quarantined message can reach a sending call: "+r.F.Describe(path))
+	}
 }
